@@ -8,6 +8,7 @@ from vf.simk.world import World
 
 ID = "C01"
 LEVEL = "model_checking"
+ALT_MOUNT = True
 _CFG = None
 
 
@@ -95,6 +96,8 @@ def run(ctx):
     extra = {}
     extra_viols = []
     for variant, d in (("popen", 7 if ctx.thorough else 6), ("ownpid", 7 if ctx.thorough else 6), ("iterfault", 8 if ctx.thorough else 7)):
+        if ctx.alt:
+            continue          # (second pass with procfs mounted elsewhere: the main variant, two events shorter)
         _CFG = mk_cfg(ctx, variant)
         ctx.close()
         r = bfs(run_h, d, ctx)
@@ -105,7 +108,7 @@ def run(ctx):
         extra[variant] = {"states": r["states"], "transitions": r["transitions"], "depth": r["max_depth"]}
     _CFG = mk_cfg(ctx)
     ctx.close()
-    depth = 9 if ctx.thorough else 8
+    depth = (9 if ctx.thorough else 8) - (2 if ctx.alt else 0)
     res = bfs(run_h, depth, ctx)
     res["violations"] = res["violations"] + extra_viols
     res["states"] += sum(e["states"] for e in extra.values())
